@@ -4,7 +4,10 @@
    king steps, castling incl. the pinned Chess960 rook, en passant incl. the two-pawn horizontal discovery -- proofs/
    PinFacts.v, LegalPin.v, LegalKing.v, LegalCastle.v, LegalEp.v, GenLegal.v), on every position satisfying the invariant
    of Closure.v and the en-passant consistency `ep_ok_b` (without which the statement is FALSE: C01_ep_consistency_is_needed).
-   Open: that every generated move is pseudo-legal by the rules' own move lists, and completeness (nothing missing).
+   SOUNDNESS IS PROVED IN FULL (C01_movegen_sound: every generated move is a legal move of the rules, both frames): block by
+   block the move is in the rules' pseudo-legal list (PseudoPieces/PseudoPawns/PseudoCastle.v), the rules' filter is the engine's
+   test (LegalBridge.v), the Black frame by mirror symmetry of the rules (RulesMirror.v, SetTurn.v).
+   Open: completeness (nothing missing); proved so far for king steps (C01_king_steps_complete).
    Also proved and listed here: the second half of the statement (NoDup: no move is emitted twice, and every
    promotion comes once per promotion piece and only on the last rank -- proofs/GenNoDup.v) for every position passing
    `good_pos_b`, and the closed lemmas the first half rests on: the slider lookups (C10), the one-step shifts without
@@ -12,7 +15,7 @@
    by the correspondence run against the executable specification spec/Rules.v (a test, not a proof). *)
 From Coq Require Import NArith ZArith List Bool Permutation String.
 From Rawr Require Import Consts Bits Magic Position MoveGen MakeMove MakeStages Fen Uci Rules Abs MagicFacts ShiftFacts AbsFacts MakeFacts GenSane GenNoDup NoKingCapture
-                         Closure EpRetro LegalKing LegalCastle LegalEp LegalBlocks GenLegal.
+                         Closure EpRetro LegalKing LegalCastle LegalEp LegalBlocks GenLegal MovegenSound ConvKing.
 Import ListNotations.
 Local Open Scope N_scope.
 
@@ -109,6 +112,19 @@ Proof. intros u p g I [H|H]; [exact (castle_k_legal u p g I H)|exact (castle_q_l
 Theorem C01_en_passant_is_safe : forall u p g, Inv0 p -> ep_ok_b p = true -> In g (blk_ep p) ->
   in_check_them (makemove u p (gen_mv g)) = false.
 Proof. exact ep_legal. Qed.
+(* ---- soundness in full: every move the generator emits is a legal move of the rules' own lists (spec/Rules.v: pseudo-legal
+   and the mover's king not attacked in the rules' successor), whoever is to move *)
+Theorem C01_generated_moves_are_pseudo_legal : forall p m, Inv0 p -> In m (legal_moves p) -> In (dec p m) (pseudo_moves (abs_state p)).
+Proof. exact generated_pseudo. Qed.
+Theorem C01_movegen_sound : forall p m, Inv0 p -> ep_ok_b p = true -> In m (legal_moves p) -> In m (spec_legal p).
+Proof. exact movegen_sound. Qed.
+(* ---- completeness, first block: a king step that does not leave the king attacked is generated (and conversely) *)
+Theorem C01_king_steps_complete : forall u p b, Inv0 p ->
+  let k := lsb (N.land (kings p) (c_us p)) in
+  b < 64 -> N.testbit (adjacent (bit k)) b = true -> ub p b = false -> b <> tksq p ->
+  (In (KING, k, b, NOPIECE) (king_steps p) <-> in_check_them (makemove u p (mkMv k b NOPIECE)) = false).
+Proof. exact king_step_iff. Qed.
+
 (* the en-passant consistency is kept by every generated move and by the null move, so it holds on every position reached
    by play from a position satisfying it *)
 Theorem C01_ep_consistency_is_kept : forall u p m, Inv0 p -> In m (legal_moves p) -> ep_ok_b (makemove u p m) = true.
@@ -166,3 +182,6 @@ Print Assumptions C01_castling_is_safe.
 Print Assumptions C01_en_passant_is_safe.
 Print Assumptions C01_ep_consistency_is_kept.
 Print Assumptions C01_ep_consistency_is_needed.
+Print Assumptions C01_generated_moves_are_pseudo_legal.
+Print Assumptions C01_movegen_sound.
+Print Assumptions C01_king_steps_complete.
